@@ -330,6 +330,10 @@ class Func:
         self._dom = None
         self._pdom = None
         self.dead = set()
+        # blocks clang already proved unreachable (pruned trivially-false edges, e.g. `if (tb && ...)` in the
+        # <false> instantiation) carry no behaviour: their events are not analysed
+        if self.blocks and self.entry in self.blocks:
+            self.dead = set(self.blocks) - self.live_blocks()
         # value-shaped logical conditions (see eff_cond)
         for b in self.blocks.values():
             t = b.get('term')
@@ -618,7 +622,7 @@ class FactBase:
                         fn.preds[s2].append(b['id'])
                 fn._dom = None
                 fn._pdom = None
-                fn.dead = before - fn.live_blocks()
+                fn.dead = fn.dead | (before - fn.live_blocks())
 
     def kname(self, key):
         f = self.funcs.get(key)
